@@ -4,12 +4,16 @@ CONSTANTS
   Chunks = {1, 2, 9, 10, 100}
   Shapes <- MC_Shapes
   RegSize <- MC_RegSize
+  ByteOrders <- MC_BO_both
+  Prev <- MC_Prev_none
+  MaxGen = 1
   Bug = "none"
 INVARIANT TypeOK
 INVARIANT HeaderFirst
 INVARIANT Sequential
 INVARIANT BlockAtDeclaredPosition
 INVARIANT Tiling
+INVARIANT NothingSurvives
 INVARIANT EachBlockOnce
 INVARIANT CanonicalOrder
 INVARIANT PixBytes
